@@ -177,23 +177,25 @@ pub struct Cmp {
 }
 impl Eval for Cmp {
     fn eval<R: PathResolver>(&self, context: &EvalContext<R>) -> bool {
+        let value = context.resolve(&self.path);
+        // A comparison holds only if the path resolves to a value
+        if value.is_null() {
+            return false;
+        }
         match self.op {
-            CmpOp::Eq => cmp_dispatch(&PartialEq::eq, &context.resolve(&self.path), &self.value),
-            CmpOp::NotEq => cmp_dispatch(&PartialEq::ne, &context.resolve(&self.path), &self.value),
-            CmpOp::LessThan => {
-                cmp_dispatch(&PartialOrd::lt, &context.resolve(&self.path), &self.value)
-            }
-            CmpOp::LessThanEq => {
-                cmp_dispatch(&PartialOrd::le, &context.resolve(&self.path), &self.value)
-            }
-            CmpOp::GreatThan => {
-                cmp_dispatch(&PartialOrd::gt, &context.resolve(&self.path), &self.value)
-            }
-            CmpOp::GreatThanEq => {
-                cmp_dispatch(&PartialOrd::ge, &context.resolve(&self.path), &self.value)
-            }
+            CmpOp::Eq => cmp_dispatch(&PartialEq::eq, &value, &self.value),
+            CmpOp::NotEq => cmp_dispatch(&PartialEq::ne, &value, &self.value),
+            CmpOp::LessThan => cmp_dispatch(&same_kind(PartialOrd::lt), &value, &self.value),
+            CmpOp::LessThanEq => cmp_dispatch(&same_kind(PartialOrd::le), &value, &self.value),
+            CmpOp::GreatThan => cmp_dispatch(&same_kind(PartialOrd::gt), &value, &self.value),
+            CmpOp::GreatThanEq => cmp_dispatch(&same_kind(PartialOrd::ge), &value, &self.value),
         }
     }
+}
+
+/// Ordering is defined between values of the same kind only
+fn same_kind(cmp: fn(&Value, &Value) -> bool) -> impl Fn(&Value, &Value) -> bool {
+    move |lhs, rhs| std::mem::discriminant(lhs) == std::mem::discriminant(rhs) && cmp(lhs, rhs)
 }
 
 fn cmp_dispatch<Cmp: Fn(&Value, &Value) -> bool>(cmp: &Cmp, lhs: &Value, rhs: &Value) -> bool {
